@@ -842,6 +842,60 @@ Section Parser.
       rewrite trim_left_all_ws by apply ws_bytes_all_ws.
       destruct (compile m); reflexivity.
     Qed.
+
+    (* the marker text a requirement carries is the printed marker without its outer white space *)
+    Lemma print_tree_last : forall m, exists c r, rev (print_tree m) = c :: r /\ is_space c = false.
+    Proof.
+      assert (P : forall X, exists c r, rev (X ++ [41]) = c :: r /\ is_space c = false).
+      { intros X. rewrite rev_app_distr. eexists. eexists. split; reflexivity. }
+      assert (AP : forall A B, (exists c r, rev B = c :: r /\ is_space c = false) ->
+                   exists c r, rev (A ++ B) = c :: r /\ is_space c = false).
+      { intros A B [c [r [E H]]]. rewrite rev_app_distr, E. cbn [app]. eexists. eexists. split; [reflexivity | exact H]. }
+      induction m as [w1 w2 wn w3 a | l IHl w r IHr | l IHl w r IHr | w1 m IH w2].
+      - cbn [print_tree]. destruct (print_atom_shape w1 w2 wn w3 a) as [w2' [w3' E]]. rewrite E.
+        repeat apply AP. destruct (atom_right a) as [v|lt].
+        + destruct v; cbn [print_operand var_name rev app]; eexists; eexists; split; reflexivity.
+        + cbn [print_operand]. unfold print_lit. change (quote_of lt :: l_text lt ++ [quote_of lt]) with ((quote_of lt :: l_text lt) ++ [quote_of lt]).
+          rewrite rev_app_distr. cbn [rev app]. eexists. eexists. split; [reflexivity|].
+          unfold quote_of. destruct (l_dq lt); reflexivity.
+      - rewrite print_tree_and. repeat apply AP. unfold and_level. destruct r; try exact IHr.
+        change ([40] ++ print_tree (TOr r1 w0 r2) ++ [41]) with (([40] ++ print_tree (TOr r1 w0 r2)) ++ [41]). apply P.
+      - rewrite print_tree_or. repeat apply AP. exact IHr.
+      - rewrite print_tree_paren. repeat apply AP. eexists. eexists. split; reflexivity.
+    Qed.
+
+    Lemma trim_print_marker : forall m wt, trim (print_marker m wt) = trim_left (print_tree m).
+    Proof.
+      intros m wt. unfold print_marker. rewrite trim_ws_app_r by apply ws_bytes_all_ws.
+      unfold trim. destruct (trim_left_split (print_tree m)) as [w [Hw E]].
+      destruct (print_tree_last m) as [c [r [Er Hc]]].
+      assert (E2 : rev (trim_left (print_tree m)) = c :: skipn 1 (rev (trim_left (print_tree m))) ).
+      { rewrite E in Er. rewrite rev_app_distr in Er.
+        destruct (rev (trim_left (print_tree m))) as [|d u] eqn:R.
+        - cbn [app] in Er. exfalso. pose proof (all_ws_rev w) as A. rewrite Hw in A.
+          rewrite Er in A. cbn [all_ws forallb] in A. rewrite Hc in A. discriminate.
+        - cbn [app] in Er. inversion Er. subst. reflexivity. }
+      unfold trim_right. rewrite E2. rewrite trim_left_nonspace by exact Hc. rewrite <- E2. apply rev_involutive.
+    Qed.
+
+    Lemma parse_marker_trim_left : forall s,
+      parse_marker pep440_valid pep440_satisfies (trim_left s) = parse_marker pep440_valid pep440_satisfies s.
+    Proof.
+      intros s. destruct (trim_left_split s) as [w [Hw E]].
+      remember (trim_left s) as t eqn:Et. clear Et. subst s.
+      unfold parse_marker. rewrite parse_level_ws by exact Hw.
+      assert (F : (marker_fuel t <= marker_fuel (w ++ t))%nat).
+      { unfold marker_fuel. rewrite app_length. lia. }
+      rewrite (parse_level_mono_le (marker_fuel t) (marker_fuel (w ++ t)) LOr t F (parse_fuel_enough t)).
+      reflexivity.
+    Qed.
+
+    Theorem parse_marker_of_requirement : forall m wt, wf_tree m = true ->
+      parse_marker pep440_valid pep440_satisfies (trim (print_marker m wt)) = compile m.
+    Proof.
+      intros m wt H. rewrite trim_print_marker, parse_marker_trim_left.
+      rewrite <- (parse_marker_printed m [] H). unfold print_marker. cbn [ws_bytes map]. rewrite app_nil_r. reflexivity.
+    Qed.
   End FuelBound.
 
   (* ---------------------------------------------------------------- shape of parser outputs *)
